@@ -4,6 +4,7 @@ import (
 	"fmt"
 	"go/token"
 	"go/types"
+	"sort"
 	"strings"
 
 	"golang.org/x/tools/go/ssa"
@@ -67,6 +68,17 @@ func ruleSchedulerTargetSets(c *Ctx) {
 	rule := c.Prop + "/target-filter-sets"
 	getIDs := F(P.Method("server/core", "RegionInfo", "GetStoreIds"))
 	nRegion, nLeader := 0, 0
+	// Leader-target selections of the load-driven schedulers (the region's new leader is picked by score, not asked for
+	// by an operator command): the placement leader safeguard is the only thing that keeps leadership off a store
+	// whose best-fitting rule is follower-only when another voter rule label-matches the store too (the operator
+	// builder's own leader check lets that through). Frozen from today's tree; the alternative without the
+	// safeguard is the path on which the constructor returned nil (placement rules off).
+	leaderGuardOwners := map[string]bool{
+		"(*server/schedulers.balanceLeaderScheduler).transferLeaderOut": false,
+		"(*server/schedulers.balanceLeaderScheduler).transferLeaderIn":  false,
+		"filterDstStores": false,
+	}
+	leaderGuardPos := map[string]string{}
 	for _, fn := range P.Funcs {
 		pk := fnPkgPath(fn)
 		if P.isScaffold(fn) || !(pk == modPath+"/server/schedulers" || pk == modPath+"/server/schedule") {
@@ -142,9 +154,37 @@ func ruleSchedulerTargetSets(c *Ctx) {
 			}
 			if leader && !move {
 				nLeader++
+				owner := fnName(fn)
+				if i := strings.Index(k, " via "); i >= 0 {
+					owner = k[i+5:]
+					if j := strings.Index(owner, " alt#"); j >= 0 {
+						owner = owner[:j]
+					}
+				}
+				if _, ok := leaderGuardOwners[owner]; ok {
+					if u.has("NewPlacementLeaderSafeguard") != nil {
+						leaderGuardOwners[owner] = true
+					}
+					if leaderGuardPos[owner] == "" {
+						leaderGuardPos[owner] = pos
+					}
+				}
 				c.OK(rule, construct+" [leader target]", "StoreStateFilter{TransferLeader}: the target accepts leaders", pos)
 			}
 		}
+	}
+	owners := make([]string, 0, len(leaderGuardOwners))
+	for o := range leaderGuardOwners {
+		owners = append(owners, o)
+	}
+	sort.Strings(owners)
+	for _, o := range owners {
+		construct := "leader-target selection of " + o + " [placement leader safeguard]"
+		if leaderGuardPos[o] == "" {
+			c.Undec(rule, construct, "the selection is found", "", "no leader-target selection resolved for this owner")
+			continue
+		}
+		c.Check(leaderGuardOwners[o], rule, construct, "a load-driven leader transfer filters its target through NewPlacementLeaderSafeguard(region, source) whenever placement rules are on", leaderGuardPos[o], "no resolved alternative of the filter set holds the safeguard")
 	}
 	c.Floor(rule, 10, "classified target selections (region-target and leader-target)")
 	c.Check(nRegion >= 5 && nLeader >= 6, rule, "classes", "at least 5 region-target and 6 leader-target selections are recognised", "", fmt.Sprintf("%d region, %d leader", nRegion, nLeader))
